@@ -35,13 +35,29 @@ type DirectOpts struct {
 // NewDirect builds the topology; the server's Serve runs in its own thread.
 func NewDirect(impl SvcServer, o DirectOpts) *Direct {
 	d := &Direct{Tap: &Tap{}}
+	var decoys []string
+	if Config != "" {
+		o, decoys = applyConfig(o, Config)
+		Config = ""
+	}
 	if o.Pipe.Name == "" {
 		o.Pipe.Name = "w"
 	}
 	d.Pipe = NewPipe(d.Tap, o.Pipe)
 	if !o.NoServer {
 		d.Srv = goat.NewServer("srv", o.ServerOpts...)
+		w0, _ := impl.(*World)
+		for i, n := range decoys {
+			if i%2 == 0 {
+				d.Srv.RegisterService(decoyDesc(n), &decoy{n, w0}) // some before, some after the real one
+			}
+		}
 		d.Srv.RegisterService(&ServiceDesc, impl)
+		for i, n := range decoys {
+			if i%2 == 1 {
+				d.Srv.RegisterService(decoyDesc(n), &decoy{n, w0})
+			}
+		}
 		d.ServeCtx, d.StopServe = context.WithCancel(context.Background())
 		if o.ServeTimeout > 0 {
 			d.ServeCtx, d.StopServe = context.WithTimeout(context.Background(), o.ServeTimeout)
